@@ -4,6 +4,7 @@ CONSTANT PNames <- TPNames
 CONSTANT MaxList = 2
 CONSTANT Others <- TOthers
 CONSTANT EmitDepth = 0
+CONSTANT EmitOneIn = 1
 VIEW DView
 INVARIANT DWF
 INVARIANT RowsWellShaped
